@@ -192,8 +192,40 @@ class LifecycleScan(FiniteTask):
              sorted(sites) == [("acse.py", "_negotiate_as_acceptor", False), ("acse.py", "_negotiate_as_requestor", False)], detail=str(sorted(sites)))
 
 
+class TerminalSitesScan(FiniteTask):
+    """the terminal outcomes (released / aborted / rejected) are notified only by the functions whose contracts say "once per
+    call, with the matching flags, then kill()": the two negotiation functions, negotiate_release, _abort_blocking and the
+    association reactor - a new trigger site elsewhere would be outside every contract"""
+    name = "frame/terminal-event-trigger-sites"
+    functions = []
+    KNOWN = {("acse.py", "_negotiate_as_acceptor"), ("acse.py", "_negotiate_as_requestor"), ("acse.py", "negotiate_release"),
+             ("association.py", "_abort_blocking"), ("association.py", "_run_reactor")}
+
+    def check(self, repo, emit):
+        from pyvc.repo import REPO_ROOT
+        sites = set()
+        for dp, dn, fns in os.walk(os.path.join(REPO_ROOT, "pynetdicom")):
+            if "tests" in dp.split(os.sep) or "benchmarks" in dp.split(os.sep) or "apps" in dp.split(os.sep):
+                continue
+            for fn in fns:
+                if not fn.endswith(".py"):
+                    continue
+                tree = ast.parse(open(os.path.join(dp, fn), encoding="utf-8").read())
+                for f in ast.walk(tree):
+                    if not isinstance(f, ast.FunctionDef):
+                        continue
+                    for n in ast.walk(f):
+                        if isinstance(n, ast.Call) and ast.unparse(n.func).endswith("trigger") and len(n.args) >= 2 \
+                                and ast.unparse(n.args[1]).split(".")[-1] in ("EVT_RELEASED", "EVT_ABORTED", "EVT_REJECTED"):
+                            sites.add((fn, f.name))
+        emit("C27/frame/terminal-outcomes-are-notified-only-by-the-functions-under-a-terminal-event-contract", sites == self.KNOWN,
+             detail=str(sorted(sites ^ self.KNOWN)))
+
+
 def tasks(tier):
-    ts = [SendTask(), StateWriterScan(), LifecycleScan(), recvpath.DecodeTask(), recvpath.DecodeFailTask()]
+    from contracts.assoc_abort import NegotiateReleaseTask, AbortTask
+    ts = [SendTask(), StateWriterScan(), LifecycleScan(), recvpath.DecodeTask(), recvpath.DecodeFailTask(), TerminalSitesScan(),
+          NegotiateReleaseTask(), AbortTask("C27/")]
     ts += [C04.ActionTask(a) for a in sorted(S.ACTIONS)]
     ts += [C04.DoActionTask(e) for e in S.EVENTS]
     return ts
